@@ -1575,7 +1575,8 @@ impl<'a, R: FileManager> FrontendCtx<'a, R> {
                 if let AddressedQualifiedType::WillBeUsedForEnumItem { enum_type, address } = ty {
                     let found = enum_type.members.iter().find(|it| match &it.id {
                         TsEnumMemberId::Ident(ident) => &ident.sym == member_name,
-                        TsEnumMemberId::Str(_) => unreachable!(),
+                        // a member may be declared by a string literal (`enum E { "a-b" = 1 }`)
+                        TsEnumMemberId::Str(st) => st.value.to_string_lossy() == member_name.as_str(),
                     });
                     return match found.and_then(|it| it.init.clone()) {
                         Some(init) => self.typeof_expr(&init, true, address.file.clone()),
@@ -2420,7 +2421,7 @@ impl<'a, R: FileManager> FrontendCtx<'a, R> {
                         }
                         let Some(enum_value) = from_enum.members.iter().find(|it| match &it.id {
                             TsEnumMemberId::Ident(i) => i.sym == *key,
-                            TsEnumMemberId::Str(_) => unreachable!(),
+                            TsEnumMemberId::Str(st) => st.value.to_string_lossy() == key.as_str(),
                         }) else {
                             return self.error(&anchor, DiagnosticInfoMessage::EnumMemberNotFound);
                         };
@@ -2619,7 +2620,7 @@ impl<'a, R: FileManager> FrontendCtx<'a, R> {
             AddressedQualifiedValue::Enum(ts_enum_decl, bff_file_name) => {
                 let Some(enum_value) = ts_enum_decl.members.iter().find(|it| match &it.id {
                     TsEnumMemberId::Ident(i) => i.sym == *member,
-                    TsEnumMemberId::Str(_) => unreachable!(),
+                    TsEnumMemberId::Str(st) => st.value.to_string_lossy() == *member,
                 }) else {
                     return self.error(anchor, DiagnosticInfoMessage::EnumMemberNotFound);
                 };
